@@ -158,6 +158,36 @@ impl Builder {
     }
 }
 
+/// A 256-bit big-endian integer with exactly `l` significant bits (0 for l = 0): top bit set, lower bits all zero (0),
+/// only bit 0 (1), all ones (2) or pseudo-random (3).
+pub fn exp_operand(l: u32, pattern: u8, salt: u64) -> [u8; 32] {
+    let mut e = [0u8; 32];
+    if l == 0 {
+        return e;
+    }
+    let l = l.min(256);
+    let set = |e: &mut [u8; 32], bit: u32| e[31 - (bit / 8) as usize] |= 1 << (bit % 8);
+    match pattern % 4 {
+        0 => {}
+        1 => set(&mut e, 0),
+        2 => {
+            for b in 0..l {
+                set(&mut e, b);
+            }
+        }
+        _ => {
+            let h = blake3::hash(&salt.to_le_bytes());
+            for b in 0..l.saturating_sub(1) {
+                if h.as_bytes()[(b / 8) as usize] >> (b % 8) & 1 == 1 {
+                    set(&mut e, b);
+                }
+            }
+        }
+    }
+    set(&mut e, l - 1);
+    e
+}
+
 /// Deterministically expands abstract choices into a mostly type-correct program.
 pub fn build_program(choices: &[(u8, u64)]) -> Vec<ROp> {
     let mut b = Builder { ops: vec![], st: vec![] };
@@ -183,12 +213,22 @@ pub fn build_program(choices: &[(u8, u64)]) -> Vec<ROp> {
                 b.apply(2, Some(Ty::I));
             }
             13 => {
-                // exp: exponent second from top, base on top; pick k around the exponent's bit length
-                let e = [0u128, 1, 2, 3, 7, 8, 255, 256, 65535][(p % 9) as usize];
-                b.push_small(e);
-                b.push_int(p >> 4);
-                let bits = 128 - e.leading_zeros() as i64;
-                let k = (bits - 1 + ((p >> 9) % 3) as i64 - 1).clamp(0, 255) as u8;
+                // exp: exponent second from top, base on top. The exponent has a chosen bit length L (0..=256: the
+                // immediate k admits exponents of up to k+1 significant bits) with low bits zero / one / all ones /
+                // mixed; k is L-2, L-1 or L; the base is small (so that the power is not trivially 0 or 1) or any integer
+                let l: u32 = if (p >> 27) % 3 == 0 {
+                    ((p >> 29) % 257) as u32
+                } else {
+                    [0u32, 1, 2, 3, 4, 8, 9, 16, 17, 31, 32, 33, 34, 63, 64, 65, 127, 128, 129, 200, 255, 256, 256][(p % 23) as usize]
+                };
+                b.ops.push(ROp::PushI(exp_operand(l, ((p >> 13) % 4) as u8, p)));
+                b.st.push(Ty::I);
+                match (p >> 20) % 4 {
+                    0 => b.push_small(2),
+                    1 => b.push_small(3),
+                    _ => b.push_int(p >> 4),
+                }
+                let k = (l as i64 - 1 + ((p >> 9) % 3) as i64 - 1).clamp(0, 255) as u8;
                 b.ops.push(ROp::Exp(k));
                 b.apply(2, Some(Ty::I));
             }
